@@ -4,7 +4,7 @@
    the usual local collision-freeness of MD5, which is a premise, never an axiom, here). *)
 From Gopar Require Import Model.Base Model.CRC Model.GoPath Model.FS Model.Par2 Proofs.Par2Facts Proofs.Par2Faults Proofs.Par2CreatePaths
      Proofs.CreateContain Proofs.Par2Ignore Proofs.Par2LayoutOps.
-From Gopar Require Model.Par1 Proofs.CreateContain Proofs.Par1RoundTrip.
+From Gopar Require Model.Par1 Proofs.CreateContain Proofs.Par1RoundTrip Proofs.Par1Facts.
 Open Scope N_scope.
 
 (* Verify (and the whole loading phase of Repair) leaves the file map unchanged - for EVERY archive
@@ -181,3 +181,24 @@ Example C02_par1_create_refuses_own_output :
   fst r3 = Ok tt /\ fs_lookup (io_fs (snd r3)) (bs "/w/o.p03") = Some [7].
 Proof. exact CreateContain.par1_create_refuses_own_output. Qed.
 Print Assumptions C02_par1_create_refuses_own_output.
+
+(* PAR1 Repair writes only hash-verified content and lists what it wrote: the state after is the state before with a list
+   of writes applied, each to the path of a saved entry with a bare name, carrying that entry's recorded MD5, 16k-MD5 and
+   length; the repaired list is exactly the list of written paths (every archive state) *)
+Theorem C02_par1_repair_writes : forall md5 ix dbl fs r rp st',
+  Par1.par1_repair md5 ix dbl (io_init fs []) = ((r, rp), st') ->
+  (io_fs st' = fs /\ rp = []) \/
+  exists s st1 ws,
+    Par1.p1_load md5 ix (io_init fs []) = (Ok s, st1) /\
+    io_fs st' = apply_writes ws fs /\ rp = map fst ws /\
+    Forall (fun w => exists e, In e (Par1.s_saved s) /\ base (Par1.e_name e) = Par1.e_name e /\
+                       fst w = join2 (dir ix) (Par1.e_name e) /\
+                       md5 (snd w) = Par1.e_hash e /\ Par1.hash16k md5 (snd w) = Par1.e_h16 e /\
+                       N.of_nat (List.length (snd w)) = Par1.e_len e) ws.
+Proof. exact Par1Facts.par1_repair_writes. Qed.
+Print Assumptions C02_par1_repair_writes.
+
+(* PAR1 Verify modifies nothing, whatever the state and the fault schedule *)
+Theorem C02_par1_verify_pure : forall md5 ix all st, io_fs (snd (Par1.par1_verify md5 ix all st)) = io_fs st.
+Proof. exact Par1Facts.par1_verify_pure. Qed.
+Print Assumptions C02_par1_verify_pure.
